@@ -677,6 +677,16 @@ class MQTTProtocol(MQTTBaseProtocol):
         '''
        
         # Cancel Alarms first
+        self._cancelAlarms()
+        # Then, invoke errbacks anyway if we do not persist state
+        if self._cleanStart:
+            self._purgeSession(reason)
+
+
+    def _cancelAlarms(self):
+        '''
+        Cancel the retransmission alarms of all requests in flight.
+        '''
         for _, request in self.factory.windowSubscribe[self.addr].items():
             if request.alarm is not None:
                 request.alarm.cancel()
@@ -693,8 +703,5 @@ class MQTTProtocol(MQTTBaseProtocol):
             if request.alarm is not None:
                 request.alarm.cancel()
                 request.alarm = None
-        # Then, invoke errbacks anyway if we do not persist state
-        if self._cleanStart:
-            self._purgeSession(reason)
 
 __all__ = [ "MQTTProtocol" ]
